@@ -160,6 +160,8 @@ func H_Create() {
 		post.get(au, denomSell).EQ(pre.get(au, denomSell).Sub(nd.ZInt(amount))),
 		post.get(au, denomFee).EQ(pre.get(au, denomFee).Sub(fee)),
 		post.get(poolAddr(), denomFee).EQ(pre.get(poolAddr(), denomFee).Add(fee))))
+	// RI base case: a freshly created auction satisfies RI
+	assertRI(e, 1, "RI.create")
 }
 
 // H_Cancel: MsgCancelAuction for every signer, status, type and moment.
@@ -224,6 +226,7 @@ func H_Cancel() {
 	}
 	nd.Assert("C02.cancel-zero-sum", post.total(denomSell).EQ(pre.total(denomSell)))
 	nd.Observe("accepted", accepted)
+	assertRI(e, 0, "RI.cancel")
 }
 
 // H_PlaceBid: MsgPlaceBid of every bid type against an auction of every type
@@ -365,6 +368,7 @@ func H_PlaceBid() {
 	if fa, ok := a.(*types.FixedPriceAuction); ok {
 		nd.Assert("C06.bid-remainder-exact", nd.ZInt(fa.RemainingSellingCoin.Amount).EQ(nd.ZInt(st.offered()).Sub(st.sold).Sub(wantSell)))
 	}
+	assertRI(e, 0, "RI.bid")
 }
 
 // H_ModifyBid: MsgModifyBid for every signer, bid, auction type/status and new terms.
@@ -464,6 +468,7 @@ func H_ModifyBid() {
 		a := getAuction(e, 0)
 		assertTermsUnchanged("C19.modify-terms", preA, a, sp.nEnd)
 		nd.Assert("C08.modify-status-unchanged", a.GetStatus() == sp.status)
+		assertRI(e, 0, "RI.modify")
 	} else {
 		nd.Cover("modify-rejected")
 	}
@@ -565,6 +570,7 @@ func H_Allowed() {
 	a := getAuction(e, 0)
 	assertTermsUnchanged("C19.allowed-terms", preA, a, sp.nEnd)
 	nd.Assert("C19.allowed-status-unchanged", a.GetStatus() == sp.status)
+	assertRI(e, 0, "RI.allowed")
 	if (op != 1 && op != 3) || err != nil {
 		ab, gerr := e.K.AllowedBidder.Get(e.Ctx, collections.Join(uint64(0), addr(user(1))))
 		nd.Assert("C19.allowed-other-entry-unchanged", (gerr == nil) == preListed1)
